@@ -597,7 +597,7 @@ def run(rep):
         "TOML decoder = tomllib (arbitrary-size integers); top-level objects without null",
         "parse errors compared by kind (line/column not modelled)",
     ]
-    regenerate_table()
+    regenerate_table(rep)
     vlib.prelude(rep, cli=True)
     rng = rep.rng
     quick = rep.tier == "quick"
@@ -722,6 +722,11 @@ def run(rep):
     for cp in [0x2028, 0x2029, 0xD7FF, 0xE000, 0xFFFE, 0xFFFF, 0x10000, 0x10FFFF]:
         pcases.append({"key": "escape " + vlib.hx(chr(cp))})
     keyset = list(YAML_KEYS)
+    # number look-alikes in every sign / fraction / exponent shape (YAML 1.1 and 1.2 float and int forms)
+    for ms in ["", "-", "+"]:
+        for mant in ["1", "15", "1.5", ".5", "1.", "0", "0.0", "1_000", "0x1F", "0o17", "017", "0b11", ".inf", ".nan", "1:30"]:
+            for ex in ["", "e3", "e-3", "e+3", "E-2", "E+02", "e", "e-"]:
+                keyset.append(ms + mant + ex)
     alphabet = "0123456789abefxABEFX_-./onyNY+"
     for _ in range(600 if quick else 20000):
         keyset.append("".join(rng.choice(alphabet) for _ in range(rng.randrange(1, 7))))
@@ -880,19 +885,21 @@ def cli_batch(rep, rng, n):
             shutil.rmtree(d, ignore_errors=True)
 
 
-def regenerate_table():
-    """RsjModel/EscapeTable.lean is re-derived from manifest.rs before the proofs are rebuilt"""
+def regenerate_table(rep):
+    """RsjModel/EscapeTable.lean is re-derived from manifest.rs before the proofs are rebuilt; a failure is a
+    broken tie, recorded so that the differential run and the oracles still look for a failing input"""
     import os
     import sys
     sys.path.insert(0, os.path.join(vlib.VERIF, "tools"))
     try:
         import extract_escape_table
     except Exception as e:  # noqa
-        raise vlib.BrokenTie("tools/extract_escape_table.py cannot be imported", repr(e))
+        rep.broken_tie("tools/extract_escape_table.py cannot be imported", repr(e))
+        return
     try:
         extract_escape_table.main_write()
     except extract_escape_table.ExtractError as e:
-        raise vlib.BrokenTie("extract_escape_table: cannot derive the escape table from manifest.rs", str(e))
+        rep.broken_tie("extract_escape_table: cannot derive the escape table from manifest.rs", str(e))
 
 
 def violation_key(kind, c, bad):
